@@ -124,10 +124,10 @@ structure FileScope (file : List Message) : Prop where
   walk : devsWalk [] file = true
 
 theorem fileScope_of {o : Opts} {files : List (List Message)} (h : csvUnambiguousB o files = true) :
-    o.degrees = false ∧ ∀ f ∈ files, FileScope f := by
-  simp only [csvUnambiguousB, Bool.and_eq_true, Bool.not_eq_true', List.all_eq_true] at h
-  refine ⟨h.1, fun f hf => ?_⟩
-  obtain ⟨⟨⟨hshape, hm⟩, hdev⟩, _⟩ := h.2 f hf
+    ∀ f ∈ files, FileScope f := by
+  simp only [csvUnambiguousB, Bool.and_eq_true, List.all_eq_true] at h
+  intro f hf
+  obtain ⟨⟨⟨hshape, hm⟩, hdev⟩, _⟩ := h f hf
   simp only [devsOK, Bool.and_eq_true, List.all_eq_true] at hdev
   obtain ⟨⟨⟨d1, d2⟩, d3⟩, d4⟩ := hdev
   refine ⟨?_, fun m hmem => mesgScope_of (hm m hmem), d1, nodupB_nodup _ d2, nodupB_nodup _ d3, d4⟩
@@ -288,9 +288,9 @@ theorem foldl_filesX (o : Opts) : ∀ (files : List (List Message)) (s : RState)
 /-- **FIT → CSV → FIT for every chain of files within `CsvUnambiguous`** -/
 theorem roundtrip_full (o : Opts) (files : List (List Message)) (hne : files ≠ []) (h : csvUnambiguousB o files = true) :
     fromCsvPre Arith.so (toCsv o files) = .ok ⟨expected o files, files.length⟩ := by
-  obtain ⟨hdeg, hfs⟩ := fileScope_of h
+  have hfs := fileScope_of h
   have hchain := chainOK_files o files [] (fun d hd => by cases hd) hfs
-  have hrl := readLines_scope o hdeg files.flatten {} hchain
+  have hrl := readLines_scope o files.flatten {} hchain
   have hshape : ∀ f ∈ files, FileShape f := fun f hf => (hfs f hf).shape
   simp only [fromCsvPre, toCsv]
   have e0 : ({} : RState).ds = [] := rfl
